@@ -135,7 +135,8 @@ def run(chk):
           ("P", 0, "pphh,pphh", 1, True), ("P", 1, "ph,pphh", 1, True),
           ("P", 1, "pphh,ph", 1, True), ("P", 0, "ph,ph", 2, True),
           ("P", 1, "ph,ph", 2, True), ("P", 0, "ph,pphh", 1, True),
-          ("P", 0, "pphh,ph", 1, True)]
+          ("P", 0, "pphh,ph", 1, True), ("P", 0, "ph,ph", 1, False),
+          ("P", 1, "ph,ph", 1, False)]
     ip = [("T", 0, "h", 0, 1, True), ("T", 1, "h", 0, 1, True),
           ("T", 2, "h", 0, 1, True), ("P", 0, "h,h", 1, True),
           ("P", 2, "h,h", 1, True), ("P", 0, "phh,phh", 1, True),
@@ -155,7 +156,7 @@ def run(chk):
                ("P", 2, "p,pph", 1, True)]
     K = 2 if quick else 3
     run_group(chk, "pp", K, pp, [(3, 3), (3, 2), (2, 2)], seeds, gs,
-              adc=[(2, 1, True)])
+              adc=[(2, 1, True), (1, 1, False)])
     run_group(chk, "ip", K, ip, [(3, 3), (3, 2), (2, 2)], seeds, gs,
               adc=[(2, 1, True)])
     run_group(chk, "ea", K, ea, [(3, 3), (2, 3), (2, 2)], seeds, gs)
